@@ -1,0 +1,25 @@
+//go:build verif
+
+// Contracts for /verif (build tag "verif"): //@ comment blocks and pure ghost functions only.
+package amd64
+
+// constPoolClean: no per-function constant-pool slot is remembered (each index is looked up lazily and
+// cached; a stale index would make a later function read another function's constant).
+func constPoolClean(m *machine) bool {
+	return len(m.consts) == 0 &&
+		m.constSwizzleMaskConstIndex == -1 && m.constSqmulRoundSatIndex == -1 &&
+		m.constI8x16SHLMaskTableIndex == -1 && m.constI8x16LogicalSHRMaskTableIndex == -1 &&
+		m.constF64x2CvtFromIMaskIndex == -1 && m.constTwop52Index == -1 &&
+		m.constI32sMaxOnF64x2Index == -1 && m.constI32uMaxOnF64x2Index == -1 &&
+		m.constAllOnesI8x16Index == -1 && m.constAllOnesI16x8Index == -1 &&
+		m.constExtAddPairwiseI16x8uMask1Index == -1 && m.constExtAddPairwiseI16x8uMask2Index == -1
+}
+
+//@ prop C05 C12
+// The machine is reused for every function of a module (and across modules): Reset forgets the
+// constant pool AND every cached index into it, so that code generation for one function cannot pick up
+// a constant of another - compiled numeric code does not depend on what was compiled before.
+//@ func (m *machine) Reset()
+//@   ensures[constant-pool-and-all-cached-indices-forgotten] constPoolClean(m)
+//@   ensures[per-function-state-cleared] m.spillSlotSize == 0 && m.maxRequiredStackSizeForCalls == 0 && m.jmpTableTargetsNext == 0 && len(m.pendingInstructions) == 0 && !m.regAllocStarted && !m.stackBoundsCheckDisabled
+//@   nosafety
